@@ -3,7 +3,7 @@
 //! text (what source() and rope() denote) and the raw bytes (what buffer() holds and size() counts): concatenation for
 //! ConcatSource, the leaf's own for leaves.  to_writer is checked against buffer(), also with a writer that fails after k bytes.
 use crate::rng::Rng;
-use rspack_sources::{BoxSource, CachedSource, ConcatSource, OriginalSource, RawBufferSource, RawStringSource, ReplaceSource, Source, SourceExt};
+use rspack_sources::{BoxSource, CachedSource, ConcatSource, OriginalSource, RawBufferSource, RawSource, RawStringSource, ReplaceSource, Source, SourceExt};
 use std::io::Write;
 use std::panic::{catch_unwind, AssertUnwindSafe};
 
@@ -35,8 +35,9 @@ fn dec(s: &[u8], i: &mut usize) -> T {
 }
 fn build(t: &T) -> BoxSource {
   match t {
-    T::S(k) => RawStringSource::from(TEXTS[*k % TEXTS.len()]).boxed(),
-    T::B(k) => RawBufferSource::from(BUFS[*k % BUFS.len()].to_vec()).boxed(),
+    // indices beyond the catalogue select the same datum behind the RawSource type (string arm / binary arm)
+    T::S(k) => if *k < TEXTS.len() { RawStringSource::from(TEXTS[*k % TEXTS.len()]).boxed() } else { RawSource::from(TEXTS[*k % TEXTS.len()].to_string()).boxed() },
+    T::B(k) => if *k < BUFS.len() { RawBufferSource::from(BUFS[*k % BUFS.len()].to_vec()).boxed() } else { RawSource::from(BUFS[*k % BUFS.len()].to_vec()).boxed() },
     T::O(k) => OriginalSource::new(TEXTS[*k % TEXTS.len()], "f.js").boxed(),
     T::C(v) => {
       // typed ConcatSource children are flattened by `new`, boxed ones are not: alternate
@@ -96,8 +97,8 @@ fn check(t: &T) -> Option<String> {
 fn gen(rng: &mut Rng, depth: u32) -> T {
   let c = if depth == 0 { rng.below(3) } else { rng.below(8) };
   match c {
-    0 => T::S(rng.below(TEXTS.len() as u64) as usize),
-    1 => T::B(rng.below(BUFS.len() as u64) as usize),
+    0 => T::S(rng.below(2 * TEXTS.len() as u64) as usize),
+    1 => T::B(rng.below(2 * BUFS.len() as u64) as usize),
     2 => T::O(rng.below(TEXTS.len() as u64) as usize),
     3 | 4 => T::C((0..rng.below(4)).map(|_| gen(rng, depth - 1)).collect()),
     5 => T::A((0..rng.below(4)).map(|_| gen(rng, depth - 1)).collect()),
@@ -111,7 +112,7 @@ pub fn search(args: &[String]) -> i32 {
   std::panic::set_hook(Box::new(|_| {}));
   let mut rng = Rng(seed.wrapping_mul(0x9E3779B97F4A7C15) | 1);
   let mut tried = 0u64;
-  let fixed = ["C()", "C(S1)", "C(B2)", "C(S1,S3)", "C(B2,S3,B3)", "A(S1,C(S2,S3))", "C(C(S1,S2),S4)", "K(C(B2,S1))", "R(C(S1,S4))", "C(R(S4),K(B2),O6)", "A(A(S1),S0,C())", "C(S0,S0)", "C(O6,O2,S5)", "C(B4,B5)", "A(B4,B5,S1)", "C(S1,C(B4,B5))", "K(C(B4,B5))", "C(B3,B5)"];
+  let fixed = ["C()", "C(S1)", "C(B2)", "C(S1,S3)", "C(B2,S3,B3)", "A(S1,C(S2,S3))", "C(C(S1,S2),S4)", "K(C(B2,S1))", "R(C(S1,S4))", "C(R(S4),K(B2),O6)", "A(A(S1),S0,C())", "C(S0,S0)", "C(O6,O2,S5)", "C(B4,B5)", "A(B4,B5,S1)", "C(S1,C(B4,B5))", "K(C(B4,B5))", "C(B3,B5)", "C(S12,B8)", "S14", "B10", "C(S9)", "K(C(B10,S13))"];
   for f in fixed {
     tried += 1; println!("CASE {f}");
     let mut i = 0; let t = dec(f.as_bytes(), &mut i);
